@@ -191,6 +191,10 @@ impl<'p> Interp<'p> {
             },
             other => self.eval(other, env, st, sty)?,
         };
+        self.apply_value(id, fv, args, st)
+    }
+
+    fn apply_value(&mut self, id: u32, fv: V, args: Vec<V>, st: &Rc<RefCell<StateNode>>) -> R<V> {
         match fv {
             V::Fn(name) => {
                 let d = *self.fns.get(&name).ok_or_else(|| Unsupported("unknown function".into()))?;
@@ -349,11 +353,18 @@ impl<'p> Interp<'p> {
             }
             E::Lam(ps, body) => V::Clo(Rc::new(Closure { params: ps.clone(), body: (**body).clone(), env: env.clone(), state: Rc::new(RefCell::new(StateNode::default())) })),
             E::Call(id, f, args) => {
+                // left to right as written: a computed callee (`mk(e)(x)`, a block, a lambda) is
+                // evaluated before the arguments, so its side effects are visible to them
+                let fe: &E = f;
+                let pre = if matches!(fe, E::Var(_)) { None } else { Some(self.eval(fe, env, st, sty)?) };
                 let mut vs = vec![];
                 for a in args {
                     vs.push(self.eval(a, env, st, sty)?);
                 }
-                self.apply(*id, f, vs, env, st, sty)?
+                match pre {
+                    Some(fv) => self.apply_value(*id, fv, vs, st)?,
+                    None => self.apply(*id, fe, vs, env, st, sty)?,
+                }
             }
             E::Pipe(id, x, f) => {
                 let v = self.eval(x, env, st, sty)?;
